@@ -16,7 +16,7 @@ EXPLANATION = (
     "identifier, and remove it; the window rejection is an ORDERING comparison of the number of pending requests with the "
     "current window that dominates every effect and raises MQTTWindowError; lifecycle: a window that a non-clean loss does "
     "not drain must be re-sent by the resume path and drained by the clean-start purge. Decides the structural clauses; "
-    "interleavings are not explored. S-FRAME: the premises of the framing lemma (every rule of C03) hold, a necessary condition of anything said about inbound packets. S-REACH: no SUBACK/UNSUBACK handler cancels, without an .active() test, a handle that a retry routine can leave stored after it fired - the exception would precede the callback.")
+    "interleavings are not explored. S-FRAME: the premises of the framing lemma (every rule of C03) hold, a necessary condition of anything said about inbound packets. S-REACH: no SUBACK/UNSUBACK handler cancels, without an .active() test, a handle that a retry routine can leave stored after it fired - the exception would precede the callback. S-HOOK: the onMqttConnectionMade hook runs after the session purge / resume of the CONNACK (a subscribe() made by the hook is otherwise re-sent or failed at once).")
 ASSUMPTIONS = ["the window size can be lowered at any time (setWindowSize), so an equality test does not bound the window"]
 
 KIND = {"subscribe": ("windowSubscribe", "SUBSCRIBE", "SUBACK"), "unsubscribe": ("windowUnsubscribe", "UNSUBSCRIBE", "UNSUBACK")}
